@@ -194,6 +194,7 @@ var messages = []string{
 	strings.Repeat("m", 300),
 	"tab\there",
 	`{"severity":"ERROR"}`,
+	`C:\tmp\new\u0041`, // backslashes in a line that slog.TextHandler leaves unquoted
 }
 
 // Size classes of the model (HybridLogMC: SizesAll): the length of one value
